@@ -1874,13 +1874,31 @@ def validate_topology_heap(rng, n_cases, res):
             for out in c.outputs.values():
                 reqs.append({"fn": "check_branching", "args": [heap, ix[id(out)]]})
                 expect.append(("check_branching", real(sched._check_branching, c, out)))
+        listed = list(composition._components)
+        if (all(x[1] == {"ok": None} for x in expect if x[0] == "check_input_connected")
+                and all(common.TRANSLATION_STATUS.get(f, {}).get("translated") for f in ("collect_inputs_outputs", "check_missing_components"))):
+            # `_validate_composition` reaches `_check_missing_components` only when every input is connected
+            try:
+                ins, outs = sched._collect_inputs_outputs(listed)
+                want_io = {"ok": [sorted(ix[id(o)] for o in ins), sorted(ix[id(o)] for o in outs)]}
+            except Exception as e:  # noqa
+                want_io = {"err": err_class(e)}
+            reqs.append({"fn": "collect_inputs_outputs", "args": [heap, [ix[id(c)] for c in listed]]})
+            expect.append(("collect_inputs_outputs", want_io))
+            reqs.append({"fn": "check_missing_components", "args": [heap, [ix[id(c)] for c in listed]]})
+            expect.append(("check_missing_components", real(sched._check_missing_components, listed)))
         if not reqs:
             continue
         for (fn, want), got in zip(expect, _trdriver(reqs)):
-            stats[fn] += 1
+            stats[fn] = stats.get(fn, 0) + 1
             if "err" in want:
                 stats["errors"][want["err"]] = stats["errors"].get(want["err"], 0) + 1
             agree = ("err" in want) == ("err" in got) and want.get("err") == got.get("err")
+            if fn == "collect_inputs_outputs" and agree and "ok" in want:
+                agree = "ok" in got and [sorted(got["ok"][0]), sorted(got["ok"][1])] == want["ok"]
+                stats["nonempty_sets"] = stats.get("nonempty_sets", 0) + (1 if want["ok"][0] and want["ok"][1] else 0)
+            if fn == "check_missing_components" and "err" in want:
+                stats["missing_rejected"] = stats.get("missing_rejected", 0) + 1
             if not agree:
                 stats["mismatch"] += 1
                 res.diverge("translation/" + fn, {"case": case, "fn": fn}, want, got)
